@@ -103,7 +103,7 @@ def run_in_worktree(name, tier="quick", pid=None):
         if rc != 0:
             print("patch does not apply:", txt)
             return 3
-        env = dict(ENV, VERIF_REPO=wt)
+        env = dict(ENV, VERIF_REPO=wt, VERIF_NO_EVIDENCE="1")
         p = subprocess.run("./check %s %s" % (pid, tier), cwd=ROOT, env=env, shell=True, stdout=subprocess.PIPE, stderr=subprocess.STDOUT,
                            text=True, timeout=4 * 3600)
         rc, txt = p.returncode, p.stdout
